@@ -39,6 +39,15 @@ def main(tier, seed, replay=None):
                {"patience": 1}, {"ftol": zero, "xtol": zero}][i % 4]
         cases.append(statsrun.gen_stats_case(rng, M, P, M + P + rng.randint(2, 8), scalar=sc, weights=rng.choice(["none", "pos"]),
                                              noise=0.1, cfg=cfg, ctor=("new_parallel" if i % 3 == 0 else "new")))
+    # (almost) exact data: residuals many orders of magnitude below the data (relative 1e-12 .. 1e-6) are still residuals — reduced
+    # chi^2 and the standard error are their squared norm over N - M - P and its root, not zero
+    for j in range(10 if tier == "quick" else 120):
+        M, P = [(2, 1), (1, 1), (3, 1), (2, 2), (1, 2)][j % 5]
+        sc = "f32" if j % 4 == 3 else "f64"
+        cases.append(statsrun.gen_stats_case(rng, M, P, M + P + rng.randint(2, 8), scalar=sc, weights=["none", "pos", "const"][j % 3],
+                                             noise=0.0, quant=None, probs=[0.683], qbits=([30, 40, 36][j % 3] if sc == "f64" else [14, 18][j % 2]),
+                                             yscale=([None, 2.0 ** 20, 2.0 ** -20][j % 3])))
+        cases[-1]["meta"]["near_exact"] = True
     # a user threshold that truncates some singular values at the solution: the parameter count stays M + P
     for j in range(8 if tier == "quick" else 100):
         M, P = [(3, 1), (2, 1), (3, 2), (2, 2)][j % 4]
